@@ -105,7 +105,7 @@ class Source:
         Returns (decl_start, body_open, body_close) character offsets."""
         lo, hi = 0, len(self.masked)
         if within:
-            m = re.search(r"(?m)^[ \t]*" + re.escape(within) + r"\b[^{;]*\{", self.masked)
+            m = re.search(r"(?m)^[ \t]*" + re.escape(within) + r"(?!\w)[^{;]*\{", self.masked)
             if not m:
                 raise AnchorLost(f"{self.path}: item `{within}` not found")
             lo = m.end() - 1
